@@ -115,7 +115,8 @@ def net_rows(net):
         rows = [(int(l), int(a), int(b), bool(x), ww, p) for l, a, b, x, ww, p in
                 zip(df.index.tolist(), df[fc].tolist(), df[tc].tolist(), act, w, pi)]
         tabs.append((t, rows))
-    eg = [(int(j), bool(s)) for j, s in zip(net.ext_grid.junction.tolist(), net.ext_grid.in_service.tolist())]
+    eg = [(int(j), bool(s), "p" in str(t)) for j, s, t in zip(net.ext_grid.junction.tolist(), net.ext_grid.in_service.tolist(),
+                                                          net.ext_grid.type.tolist())]
     return {"junctions": js, "tables": tabs, "extgrids": eg, "sources": pressure_sources(net)}
 
 
@@ -123,7 +124,7 @@ def c_net(nr):
     js = clist(["mkJ %s %s" % (cz(l), cbool(s)) for l, s in nr["junctions"]])
     tabs = clist(["(%s, %s)" % (cstr(t), clist(["mkB %s %s %s %s %s %s" % (cz(l), cz(a), cz(b), cbool(x), cz(w), cbool(p))
                                                 for l, a, b, x, w, p in rows])) for t, rows in nr["tables"]])
-    eg = clist(["(%s, %s)" % (cz(j), cbool(s)) for j, s in nr["extgrids"]])
+    eg = clist(["(%s, %s, %s)" % (cz(j), cbool(s), cbool(p)) for j, s, p in nr["extgrids"]])
     return "(mkNet %s %s %s %s)" % (js, tabs, eg, clist([cz(x) for x in nr["sources"]]))
 
 
@@ -495,7 +496,8 @@ def run_correspondence(ctx, runner):
             bad.append((i * size + first, trip[1][2]))
     ctx.corr("C18.Model (edges, nodes, components, unsupplied, distances) == create_nxgraph / networkx / graph_searches",
              n_tot, n_mis, "every computed closure and relaxation was checked to be stable inside Coq")
-    part = {1: "edges", 2: "nodes", 3: "components", 4: "unsupplied", 5: "distances", 6: "whether the call raises", 0: "?"}
+    part = {1: "edges", 2: "nodes", 3: "components", 4: "unsupplied", 5: "distances", 6: "whether the call raises",
+            7: "pressure sources (slack set)", 0: "?"}
     for i, k in bad[:3]:
         c = cases[i]
         ctx.violation({"fn": "create_nxgraph" if k in (1, 2, 3) else "unsupplied_junctions" if k == 4 else "calc_distance",
@@ -531,6 +533,13 @@ WITNESS_T = {"fluid": "water", "ops": [
     ["create_pipe_from_parameters", {"from_junction": 0, "to_junction": 1, "length_km": 0.5, "inner_diameter_mm": 100.0, "k_mm": 0.1, "index": 0}],
     ["create_pipe_from_parameters", {"from_junction": 2, "to_junction": 3, "length_km": 0.25, "inner_diameter_mm": 100.0, "k_mm": 0.1, "index": 1}],
     ["create_sink", {"junction": 1, "mdot_kg_per_s": 0.1, "index": 0}]]}
+
+
+WITNESS_NOTRAV = {"fluid": "water", "ops": [
+    ["create_junction", {"pn_bar": 5.0, "tfluid_k": 293.15, "index": i, "in_service": i != 2}] for i in (0, 1, 2, 3)] + [
+    ["create_ext_grid", {"junction": 0, "p_bar": 5.0, "t_k": 293.15, "index": 0}]] + [
+    ["create_pipe_from_parameters", {"from_junction": a, "to_junction": b, "length_km": 0.5, "inner_diameter_mm": 100.0,
+                                     "k_mm": 0.1, "index": i}] for i, (a, b) in enumerate([(0, 1), (1, 2), (2, 3), (0, 3)])]}
 
 
 def zoo_spec():
@@ -584,6 +593,7 @@ def run(ctx):
         runner.graph_case(wnv, {})
         runner.solver_case(wnv)
         runner.solver_case(WITNESS_T)
+        runner.distance_case(WITNESS_NOTRAV, rng, fixed=({"notravjunctions": [1]}, "single", [0]))
         zoo = zoo_spec()
         runner.graph_case(zoo, {})
         runner.graph_case(zoo, {"multi": False})
